@@ -1769,7 +1769,7 @@ impl L7Proxy for HttpProxy {
         // when the session never tracked anything (feature disabled, or
         // no request reached `Router::connect`).
         sessions.untrack_all_cluster_ip(token);
-        let removed = sessions.slab.try_remove(token.0).is_some();
+        let removed = sessions.release(token.0).is_some();
         // Removal must report exactly whether the slot was occupied, and the
         // live count drops by one iff something was actually removed (±1
         // pairing against add_session / create_session). The slot is gone.
